@@ -14,7 +14,7 @@ pub const META_C07: Meta = Meta {
     assumptions: &["device-injected values reach expressions unmodified (checked by C04)"],
     quick_cases: 61728,
     thorough_cases: 1001728,
-    floor: 500,
+    floor: 5000,
 };
 
 pub const C07_BATCHES: u64 = 27;
@@ -290,7 +290,7 @@ pub const META_C08: Meta = Meta {
     assumptions: &["reference evaluator (60 lines, wrapping_* semantics as stated in C08)", "printer inserts parentheses per the C08 table; a printer bug would show as disagreement, not silence"],
     quick_cases: 60000,
     thorough_cases: 1200000,
-    floor: 500,
+    floor: 5000,
 };
 
 const EDGE_VALS: [i64; 16] = [0, 1, -1, 2, 3, 5, 7, 63, 64, 65, i64::MIN, i64::MAX, 1 << 32, -(1 << 31), 0x7FFF_FFFF, 255];
